@@ -361,10 +361,23 @@ func DiffLayer(a, b PacketSig) string {
 					return strings.ReplaceAll(t, " ", "_")
 				}
 			}
+			// both sides end in a failure here: it belongs to the decoder that failed, i.e. the layer in front of it
+			if i > 0 && i-1 < len(a.Types) {
+				return strings.ReplaceAll(a.Types[i-1], " ", "_")
+			}
 			return "DecodeFailure"
 		}
 	}
 	return ""
+}
+
+// DiffLayerFirst is DiffLayer with a failure of the very first decoder attributed to the first layer type.
+func DiffLayerFirst(a, b PacketSig, first string) string {
+	d := DiffLayer(a, b)
+	if d == "DecodeFailure" {
+		return strings.ReplaceAll(first, " ", "_")
+	}
+	return d
 }
 
 // Exported is Of restricted to exported fields (at every depth).
